@@ -38,6 +38,9 @@ def oracle(xs, nd, st, sp):
     return fit, G, S, True
 
 
+LAST_WATCH = None
+
+
 def _drel(xs, fit, dtype):
     """float32 inputs: worst-case relative shift of the index caused by single-precision logarithms
     in s = log(mean) - mean(log): |d alpha / alpha| <= err(s)/s, index ~ sqrt(alpha)"""
@@ -63,6 +66,8 @@ def run_cube(pixels, nd, st, sp, api, dtype="int16", groups=None, dask=False, nd
 
     T = len(pixels[0])
     arr = np.array(pixels, dtype=dtype).reshape(1, len(pixels), T)
+    global LAST_WATCH
+    LAST_WATCH = core.Watch(arr)
     try:
         if api == "yxt":
             out = gammastd_yxt(arr, nd, st, sp)
@@ -96,7 +101,7 @@ def cases_for(pixels, nd, st, sp, api, dtype, tag, checkvalue=True, dask=False, 
         fit, G, S, ok = oracle(xs_t, float(nd), st, sp)
         res.append({
             "x": [core.rat(v) for v in xs_t], "nd": core.rat(float(nd)), "ndi": int(nd), "st": st, "sp": sp,
-            "outcome": outcome, "out": outs[pi] if outs else [], "fit": fit, "G": G, "S": S,
+            "inmod": bool(LAST_WATCH and LAST_WATCH.changed()), "outcome": outcome, "out": outs[pi] if outs else [], "fit": fit, "G": G, "S": S,
             "dlt": 0 if dtype != "float32" else 3, "drel": _drel(xs_t, fit, dtype), "checkvalue": bool(checkvalue and ok and _drel(xs_t, fit, dtype) != "big"),
             "api": api, "dtype": dtype, "tag": tag, "ndmode": ndmode, "xi": list(xs), "pix": pi, "npix": len(pixels),
         })
